@@ -363,12 +363,15 @@ pub enum Recipe {
     MultiGroup,
     Full,
     Saturated,
+    /// like Saturated but reached by random removals and refills: displaced elements, interleaved tombstones
+    SaturatedRandom,
     Tombstoned,
     GrownThenShrunk,
     Drained,
     Churned,
 }
-pub const RECIPES: [Recipe; 11] = [
+pub const RECIPES: [Recipe; 12] = [
+    Recipe::SaturatedRandom,
     Recipe::Fresh,
     Recipe::WithCapacity,
     Recipe::Small,
@@ -393,8 +396,8 @@ pub struct Spec {
 impl Spec {
     pub fn random(rng: &mut Rng, recipe: Recipe) -> Spec {
         let plan = match recipe {
-            Recipe::Saturated | Recipe::Tombstoned if rng.chance(3, 4) => {
-                *rng.pick(&[Plan::Ident, Plan::IdentOneTag, Plan::Zero, Plan::SamePos, Plan::Palette(1, 3), Plan::Tail, Plan::Max])
+            Recipe::Saturated | Recipe::SaturatedRandom | Recipe::Tombstoned if rng.chance(3, 4) => {
+                *rng.pick(&[Plan::Ident, Plan::IdentOneTag, Plan::Zero, Plan::SamePos, Plan::Palette(1, 3), Plan::Palette(3, 1), Plan::Palette(4, 4), Plan::Stride, Plan::Tail, Plan::Max])
             }
             _ => crate::mapdrv::pick_plan(rng),
         };
@@ -468,6 +471,48 @@ pub fn build<C: Coll>(spec: &Spec) -> C {
             while c.len() as u32 > keep && id > 0 {
                 id -= 1;
                 c.del(id);
+            }
+            c
+        }
+        Recipe::SaturatedRandom => {
+            let n = lim(*rng.pick(&[28u32, 56, 14, 112]));
+            let mut c = C::with_cap(bh, n as usize);
+            let cap = c.capacity() as u32;
+            let mut next = 0u32;
+            let mut live: Vec<u32> = Vec::new();
+            while (c.len() as u32) < cap && next + 1 < space {
+                c.put(next, g());
+                live.push(next);
+                next += 1;
+            }
+            for _round in 0..6 {
+                // remove random elements down to below half the capacity
+                let keep = (cap / 2).saturating_sub(1 + rng.below(3) as u32).max(1);
+                while live.len() as u32 > keep {
+                    let i = rng.usize_below(live.len());
+                    let id = live.swap_remove(i);
+                    c.del(id);
+                }
+                // refill with fresh keys while the table still promises room
+                let mut guard = 0;
+                while c.dump().growth_left > 0 && (live.len() as u32) < keep && next + 1 < space && guard < 4 * cap {
+                    c.put(next, g());
+                    live.push(next);
+                    next += 1;
+                    guard += 1;
+                }
+                let d = c.dump();
+                if d.growth_left == 0 && (c.len() as u32) <= cap / 2 {
+                    break;
+                }
+                // use up the remaining room, then thin out again
+                let mut guard = 0;
+                while c.dump().growth_left > 0 && next + 1 < space && guard < 4 * cap {
+                    c.put(next, g());
+                    live.push(next);
+                    next += 1;
+                    guard += 1;
+                }
             }
             c
         }
